@@ -340,7 +340,7 @@ class _Morphological(_Algorithm):
         smooth_half_window : int, optional
             The half-window to use for smoothing the data before performing the
             morphological operation. Default is None, which will use a value of 1,
-            which gives no smoothing.
+            which gives no smoothing. A value of 0 also gives no smoothing.
         pad_kwargs : dict, optional
             A dictionary of keyword arguments to pass to :func:`.pad_edges` for
             padding the edges of the data to prevent edge effects from convolution.
@@ -377,7 +377,8 @@ class _Morphological(_Algorithm):
         y, half_wind = self._setup_morphology(data, half_window, window_kwargs, **kwargs)
         window_size = 2 * half_wind + 1
         kernel = _mollifier_kernel(window_size)
-        if smooth_half_window is None:
+        if smooth_half_window is None or smooth_half_window == 0:
+            # a half window of 1 gives no smoothing; 0 would give a 0 / 0 kernel
             smooth_half_window = 1
         smooth_kernel = _mollifier_kernel(smooth_half_window)
         data_bounds = slice(window_size, -window_size)
